@@ -213,6 +213,89 @@ expressions = [(e1, np.array([[0.25], [0.5]]))]
                               dict(obligation=name, missing=missing, file=text, how_to_replay="ffcx.main.main([file, '-d', dir]) on the file text in this replay"))
 
 
+def c20_multi_file_run(rep, tier, seed):
+    """One ffcx run over several UFL files gives, for every file, the same header and source as a run on that file alone
+    with the same command-line options (the options dict built once by main is not changed by an earlier file), and
+    compile_ufl_objects leaves its `options` argument unchanged.  Exhaustive over the listed file orders x options (finite)."""
+    import itertools
+    import tempfile
+
+    import ufl.algorithms
+
+    import ffcx.main as M
+    from ffcx.compiler import compile_ufl_objects
+    from ffcx.options import get_options
+
+    texts = {
+        "first": """
+import basix.ufl
+import numpy as np
+from ufl import Coefficient, FunctionSpace, Mesh, TestFunction, TrialFunction, dx, grad
+mesh = Mesh(basix.ufl.element("Lagrange", "triangle", 1, shape=(2,)))
+V = FunctionSpace(mesh, basix.ufl.element("Lagrange", "triangle", 1))
+f = Coefficient(V)
+L = f * TestFunction(V) * dx
+expressions = [(grad(f), np.array([[0.25, 0.25]]))]
+""",
+        "second": """
+import basix
+import basix.ufl
+from ufl import FunctionSpace, Mesh, TestFunction, TrialFunction, dx, grad, inner
+ct = basix.CellType.quadrilateral
+el = basix.ufl.wrap_element(basix.create_tp_element(basix.ElementFamily.P, ct, 2, basix.LagrangeVariant.gll_warped))
+mesh = Mesh(basix.ufl.blocked_element(basix.ufl.wrap_element(basix.create_tp_element(basix.ElementFamily.P, ct, 1, basix.LagrangeVariant.gll_warped)), shape=(2,)))
+V = FunctionSpace(mesh, el)
+u, v = TrialFunction(V), TestFunction(V)
+a = inner(grad(u), grad(v)) * dx + u * v * dx
+""",
+    }
+    optsets = [["--part", "diagonal"], ["--sum_factorization"], ["--scalar_type", "float32", "--table_atol", "1e-7"]]
+
+    def read(path):
+        # comments are dropped: the header comment echoes the command line (output directory, list of input files)
+        return "\n".join(line for line in open(path).read().splitlines() if not line.lstrip().startswith("//"))
+    with tempfile.TemporaryDirectory() as d:
+        paths = {}
+        for stem, text in texts.items():
+            paths[stem] = os.path.join(d, stem + ".py")
+            with open(paths[stem], "w") as fh:
+                fh.write(text)
+        for opts in optsets:
+            alone = {}
+            for stem in texts:
+                od = os.path.join(d, "alone_" + stem + "_" + "".join(c for c in "".join(opts) if c.isalnum()))
+                os.makedirs(od, exist_ok=True)
+                M.main([paths[stem], "-d", od] + opts)
+                alone[stem] = (read(os.path.join(od, stem + ".h")), read(os.path.join(od, stem + ".c")))
+            for order in itertools.permutations(list(texts)):
+                od = os.path.join(d, "multi_" + "_".join(order) + "_" + "".join(c for c in "".join(opts) if c.isalnum()))
+                os.makedirs(od, exist_ok=True)
+                name = f"ffcx {' '.join(s + '.py' for s in order)} {' '.join(opts)}: every file's output equals the output of a run on that file alone"
+                try:
+                    M.main([paths[s] for s in order] + ["-d", od] + opts)
+                    diff = [s for s in order if (read(os.path.join(od, s + ".h")), read(os.path.join(od, s + ".c"))) != alone[s]]
+                except Exception as e:  # noqa: BLE001
+                    diff = [f"{type(e).__name__}: {e}"]
+                if not diff:
+                    rep.ob(name, "proved", "exhaustive-finite", "exhaustive")
+                else:
+                    rep.violation(f"main:multi:{'_'.join(order)}:{opts[0]}", name + f" fails for {diff}", dict(obligation=name, differing=diff, files=texts, options=opts,
+                                  how_to_replay="ffcx.main.main([files..., '-d', dir] + options) vs one run per file"))
+        # purity of the options argument
+        for stem in texts:
+            for o in ({"part": "diagonal"}, {"sum_factorization": True}):
+                ufd = ufl.algorithms.load_ufl_file(paths[stem])
+                options = get_options(dict(o))
+                before = dict(options)
+                compile_ufl_objects(ufd.forms + ufd.expressions + ufd.elements, options=options, object_names=ufd.object_names, namespace=stem)
+                name = f"compile_ufl_objects({stem}.py, {o}) leaves its options argument unchanged"
+                if options == before:
+                    rep.ob(name, "proved", "exhaustive-finite", "exhaustive")
+                else:
+                    ch = {k: (before.get(k), options.get(k)) for k in set(before) | set(options) if before.get(k) != options.get(k)}
+                    rep.violation(f"main:options-mutated:{stem}:{list(o)[0]}", name + f" fails: {ch}", dict(obligation=name, changed={k: [str(a), str(b)] for k, (a, b) in ch.items()}))
+
+
 def c20_same_entry(rep, tier, seed):
     """The CLI and the JIT both generate code through compiler.compile_ufl_objects with the merged options."""
     import ast
@@ -646,7 +729,7 @@ def c12_replay(rep, tier, seed, new_sites=()):
         jobs = [("demo/HyperElasticity.py", {}), ("demo/FacetIntegrals.py", {}), ("demo/CellGeometry.py", {}),
                 ("corpus/tp_sumfact.py", {"sum_factorization": True}), ("corpus/mixed_enriched_symmetric.py", {}),
                 ("corpus/vertex_ridge.py", {}), ("corpus/expressions.py", {}), ("corpus/subdomains.py", {}),
-                ("corpus/macro_iso.py", {}), ("corpus/complex_ops.py", {"scalar_type": "complex128"})]
+                ("corpus/macro_iso.py", {}), ("corpus/complex_ops.py", {"scalar_type": "complex128"}), ("corpus/two_meshes.py", {})]
         variants = [(1 + seed % 5, 0), (0, 2), (0, 3)]
     else:
         jobs = C.demo_files() + C.corpus_files()
@@ -756,6 +839,70 @@ def c13_option_signature(rep, tier, seed):
         else:
             seen[s] = (args, dbg)
             rep.ob(nm, "proved", "runtime-contract", "bounded")
+
+
+def c13_signature_across_configs(rep, tier, seed):
+    """The option signature is a function of the RESOLVED option values only, in every process: processes whose
+    ffcx_options.json files differ (none / user file / $PWD file) give equal signatures for equal resolved options and
+    different signatures for different ones.  Exhaustive over the listed environments x option values (finite)."""
+    import json
+    import subprocess
+    import sys
+    import tempfile
+
+    child = r"""
+import sys, json
+sys.path.insert(0, %(repo)r)
+import ffcx.codegeneration.jit as J
+from ffcx.options import get_options
+out = {}
+for st in ("float32", "float64", "complex128"):
+    for part in ("full", "diagonal"):
+        out[f"{st},{part}"] = J._compute_option_signature(get_options({"scalar_type": st, "part": part}))
+out["resolved-defaults"] = J._compute_option_signature(get_options())
+out["resolved-scalar_type"] = str(get_options()["scalar_type"])
+print(json.dumps(out))
+"""
+    res = {}
+    with tempfile.TemporaryDirectory() as d:
+        envs = {"no-config": {}, "user-config-float32": {"scalar_type": "float32"}, "user-config-diagonal": {"part": "diagonal"}}
+        for name, cfg in envs.items():
+            xdg = os.path.join(d, name, "xdg")
+            cwd = os.path.join(d, name, "cwd")
+            os.makedirs(os.path.join(xdg, "ffcx"))
+            os.makedirs(cwd)
+            if cfg:
+                with open(os.path.join(xdg, "ffcx", "ffcx_options.json"), "w") as fh:
+                    json.dump(cfg, fh)
+            r = subprocess.run([sys.executable, "-c", child % dict(repo=REPO)], capture_output=True, text=True, cwd=cwd, timeout=300,
+                               env=dict(os.environ, XDG_CONFIG_HOME=xdg, HOME=os.path.join(d, name)))
+            if r.returncode != 0:
+                rep.error("c13 signature across configs", r.stderr[-600:])
+                return
+            res[name] = json.loads(r.stdout.strip().splitlines()[-1])
+    base = res["no-config"]
+    if res["user-config-float32"]["resolved-scalar_type"] != "float32":
+        rep.undecide("option signature across config files", "the user config file was not picked up (XDG_CONFIG_HOME)")
+        return
+    bad = []
+    for name, r in res.items():
+        for k in base:
+            if k.startswith("resolved"):
+                continue
+            if r[k] != base[k]:
+                bad.append(f"{name}: signature of explicitly given {k} differs from the process without config files")
+    if res["user-config-float32"]["resolved-defaults"] != base["float32,full"]:
+        bad.append("config file scalar_type=float32: the signature of the resolved options is not the signature of scalar_type=float32")
+    if res["user-config-float32"]["resolved-defaults"] == base["resolved-defaults"]:
+        bad.append("config file scalar_type=float32 and no config file (float64) give the same signature")
+    if res["user-config-diagonal"]["resolved-defaults"] != base["float64,diagonal"] or res["user-config-diagonal"]["resolved-defaults"] == base["resolved-defaults"]:
+        bad.append("config file part=diagonal: the signature does not reflect the resolved value")
+    name = "option signature depends on the resolved option values only, across processes with different ffcx_options.json files (3 environments x 6 settings)"
+    if not bad:
+        rep.ob(name, "proved", "exhaustive-finite", "exhaustive")
+    else:
+        rep.violation("optsig:config", name + f" fails: {bad[0]}", dict(obligation=name, failures=bad, signatures=res,
+                                                                       how_to_replay="checks/finite.py::c13_signature_across_configs child script under XDG_CONFIG_HOME with the listed files"))
 
 
 def c13_compute_signature(rep, tier, seed):
